@@ -27,7 +27,10 @@ RULE = ('case = scratch configuration (certificate good / absent / unusable, rel
         'The real Qsmtpd (ASan+UBSan) is driven in lock step; reply codes per channel (clear / TLS), the STARTTLS announcement, the switch, hand-offs '
         '(envelope, message incl. the Received line that names the channel) and the connection end are compared with the extracted model; the '
         'extracted checker spec_ok_C17 and, for simple scripts, ttrace_run/shape_ok judge the implementation trace itself. '
-        'non-trivial = a STARTTLS command was answered 220; distinct by case text')
+        'non-trivial = a STARTTLS command was answered 220; distinct by case text. '
+        'Second engine servercert (unit): find_servercert() with faccessat answered from a per-call mask over the six candidate names, local address '
+        'of 1..45 arbitrary non-NUL octets (boundary lengths 37..45), port none/1..5 octets, 1..6 calls on the same static arrays; probed names, return '
+        'value, certfilename and keyfilename compared with the literal model, spec_ok_servercert judges the C result; non-trivial = several calls, one found')
 TRUSTED_BASE = [
     'Coq 8.16.1 kernel; vm_compute only for the commands[] table checks (forallb over 12 rows) and the examples',
     'axioms: none (Closed under the global context)',
@@ -41,6 +44,8 @@ TRUSTED_BASE = [
     'whole-program harness harness/tlssession/runner.py: the binary of harness/session/runner.py (all of qsmtpd/** and lib/*.c, only lib/libowfatconn.c replaced), '
     'self-signed RSA certificate generated with the openssl CLI, python3 ssl (OpenSSL 3.0) client over memory BIOs, lock-step delivery by /proc/<pid>/syscall + SIOCOUTQ',
     'extraction (ExtrOcamlBasic only) and ocaml/tls_driver.ml incl. the reconstruction of ghost notes from (command text, reply code) for simple scripts in spec mode',
+    'unit harness harness/servercert_h.c (#include of qsmtpd/starttls.c, faccessat redirected, other collaborators stubbed, statics reset to their start-up image per case), '
+    'coq/Model/ServerCert.v, ocaml/servercert_driver.ml; INET6_ADDRSTRLEN taken from the system header by the translator',
 ]
 ASSUMPTIONS = [
     'lock-step client: a segment, a ClientHello or a close is sent only when the server is blocked on its input. A clear-text segment that reaches the server '
@@ -56,7 +61,8 @@ LEVEL_TEXT = ('Coq theorems for all oracles, all scripts (all pre-handshake hist
               'leaves a reader whose only source is the TLS stream; with anything pending the session ends in wait_for_quit; (2) after the switch the trace '
               'passes the phase/transaction checker restarted from "nothing yet": MAIL needs a new HELO/EHLO and every hand-off carries a transaction opened '
               'inside TLS; (3) STARTTLS is refused without ESMTP, inside TLS, without usable certificate, and announced only in clear text with a certificate; '
-              '(4) a failed handshake leaves ssl unset and the command state unchanged.')
+              '(4) a failed handshake leaves ssl unset and the command state unchanged. find_servercert (literal model of the 76-byte name arrays): no access '
+              'outside the arrays and the documented result for every address <= 45 octets, port <= 5 octets, every faccessat oracle and any number of calls.')
 LEVEL_NOTE = ('Partial for OpenSSL: handshake and record layer are oracles. The proof is about the model; model-vs-binary agreement is differential testing '
               'with a real TLS client.')
 TECHNIQUE = ('Coq invariant proof on top of the session simulation relation (Proofs/SessionProofs.v), reflection over the regenerated commands[] table and the '
